@@ -112,10 +112,13 @@ def build_unit(bdir, unit, log):
     ll = open(b.p('.ll')).read()
     hname = unit.name + '.h'
     header, body, info = irtyped.translate_typed(ll, dict(omit=unit.cuts, ubchecks=True, hname=hname, memhook=unit.memhook, memhook_allow=unit.memhook_allow))
-    if unit.cuts and not info['omitted']: raise RuntimeError('cut functions vanished (inlined?) in unit %s' % unit.name)
+    if unit.cuts and not info['omitted'] and not all(a.endswith('?') for a in unit.cutmap): raise RuntimeError('cut functions vanished (inlined?) in unit %s' % unit.name)
     alias = []
     for al, rx in unit.cutmap.items():
         hit = [f for f in info['omitted'] if re.search(rx, f)]
+        if al.endswith('?'):   # optional cut: the function may not exist in this tree (e.g. a different template instantiation)
+            al = al[:-1]
+            if not hit: continue
         if len(hit) != 1: raise RuntimeError('cut %s (%s) matched %d functions in unit %s: %s' % (al, rx, len(hit), unit.name, hit[:4]))
         alias.append('#define %s %s' % (al, hit[0]))
     if alias:
